@@ -683,6 +683,13 @@ let run_netconn kvs _ =
        let (s1, _) = dl_step s0 DCallStart in
        let (s2, _) = dl_step s1 DFire in
        Printf.sprintf "call=%b connclosed=%b eof=false" s2.dl_cancelled s2.dl_cancelled
+     | "idle-cleared" ->
+       (* a deadline set and cleared again before it passes: nothing fires, later calls succeed *)
+       let (s1, _) = dl_step s0 DSet in
+       let (s2, _) = dl_step s1 DSet in
+       let (s3, o1) = dl_step s2 DCallStart in
+       let (_, o2) = dl_step s3 DCallStart in
+       Printf.sprintf "first=%s second=%s" (out o1) (out o2)
      | _ ->
        let (s1, _) = dl_step s0 DSet in
        let (s2, _) = dl_step s1 DFire in
@@ -899,8 +906,21 @@ let run_window kvs ikvs =
     | _ -> out := "?" :: !out) ops;
   "obs=" ^ String.concat "," (List.rev !out)
 
+(* suite trim (C01): the four-byte trim writer with arbitrary chunkings, against Model/Window.v trim_step *)
+let run_trim kvs _ =
+  let lens = List.map int_of_string (String.split_on_char ',' (get kvs "chunks")) in
+  let tail = ref [] in
+  let obs = List.mapi (fun k l ->
+    let p = bytes_of_string (gen_bytes "rand" l (k + 1)) in
+    let (outs, t') = trim_step !tail p in
+    tail := t';
+    let ws = if outs = [] then "-" else String.concat "+" (List.map hexb outs) in
+    Printf.sprintf "%s/%s/%d" ws (hexb t') l) lens in
+  "obs=" ^ String.concat "," obs
+
 let suites : (string * ((string * string) list -> (string * string) list -> string)) list = [
   "pools", run_pools;
+  "trim", run_trim;
   "window", run_window;
   "life", run_life;
   "ping", run_ping;
